@@ -112,7 +112,10 @@ def rule_construction(ctx):
         if stores and sends:
             s, (sn, sc) = stores[0], sends[0]
             if api == "publish":
-                ok2 = ("truth", "options.acknowledge", None, True) in mf.at(s) and not g.path_exists(sn, s)
+                # the options object: the local taken out of the keyword arguments under the key "options" (whatever it is called)
+                onames = {nm_ for nm_, d_ in local_canon(fn).items() if isinstance(d_, ast.Call) and norm.text(d_.func) in ("kwargs.pop", "kwargs.get")
+                          and d_.args and isinstance(d_.args[0], ast.Constant) and d_.args[0].value == "options"} or {"options"}
+                ok2 = any(("truth", f"{o_}.acknowledge", None, True) in mf.at(s) for o_ in onames) and not g.path_exists(sn, s)
             else:
                 ok2 = g.always_preceded_by(sn, lambda x: x is s)
             ctx.ob(f"{api}: pending record is stored before the message is sent", ok2, "send can happen before the record exists (a fast reply would be unmatched)", fn.loc(sc))
@@ -257,7 +260,10 @@ def rule_dispatch(ctx):
     ctx.ob("ERROR arm handles exactly the six request kinds", len(pairs) == 6, f"{len(pairs)} kinds", om.fn.loc())
     # whichever way the test is written: where no pending result was found (on_reply falsy) the only way on is ProtocolError,
     # and the reject happens only with one
-    fin = [n for n in nodes if n.kind == "test" and norm.atoms(n.ast, True, res) in ([("truth", "on_reply", None, True)], [("truth", "on_reply", None, False)])]
+    # the pending result: the local that is rejected in this arm (whatever it is called)
+    orn = {c.args[0].id for n in nodes for c in node_calls(n) if call_name(c) == "txaio.reject" and c.args and isinstance(c.args[0], ast.Name)}
+    orn = next(iter(orn)) if len(orn) == 1 else "on_reply"
+    fin = [n for n in nodes if n.kind == "test" and norm.atoms(n.ast, True, res) in ([("truth", orn, None, True)], [("truth", orn, None, False)])]
     ok = len(fin) == 1
     if ok:
         pos = norm.atoms(fin[0].ast, True, res)[0][3]
@@ -266,8 +272,8 @@ def rule_dispatch(ctx):
     ctx.ob("ERROR matching no pending request is a protocol violation", ok, "unmatched ERROR not answered with ProtocolError", om.fn.loc())
     rej = [(n, c) for n in nodes for c in node_calls(n) if call_name(c) == "txaio.reject"]
     for n, c in rej:
-        ctx.ob("ERROR: the reject happens only when a pending result was found", ("truth", "on_reply", None, True) in (mf.at(n) or ()), "reject reachable without a pending result", om.fn.loc(c))
-    ok = len(rej) == 1 and norm.text(rej[0][1].args[0]) == "on_reply" and norm.text(rej[0][1].args[1]) == "self._exception_from_message(msg)"
+        ctx.ob("ERROR: the reject happens only when a pending result was found", ("truth", orn, None, True) in (mf.at(n) or ()), "reject reachable without a pending result", om.fn.loc(c))
+    ok = len(rej) == 1 and norm.text(rej[0][1].args[0]) == orn and norm.text(rej[0][1].args[1]) == "self._exception_from_message(msg)"
     ctx.ob("ERROR rejects the pending result with the exception built from the message", ok, "reject changed", om.fn.loc())
 
 
@@ -311,7 +317,22 @@ def rule_remove_then_complete(ctx):
                 ctx.ob(f"{arm}: `{stmt_key(c)[:50]}` happens after the record was removed", bool(removes) and g.always_preceded_by(n, lambda x: x in removes),
                        "pending result completed while its record is still in the table (a duplicate reply would complete it again)", om.fn.loc(c))
             tgt = norm.text(c.args[0])
-            ctx.ob(f"{arm}: `{stmt_key(c)[:50]}` completes this request's own pending result", tgt in ("on_reply", "request.on_reply", "publish_request.on_reply"),
+
+            def own(e, depth=0, nodes=nodes, table=table):
+                """e denotes the pending result of the record found under msg.request in this arm's table (through locals of any name)"""
+                if depth > 4:
+                    return False
+                t_ = norm.text(e) or ""
+                if f"self.{table}" in t_ and "msg.request" in t_:
+                    return t_.endswith(".on_reply") or depth > 0
+                if isinstance(e, ast.Attribute) and e.attr == "on_reply":
+                    return own(e.value, depth + 1)
+                if isinstance(e, ast.Name):
+                    defs = [n_.ast.value for n_ in nodes if n_.kind == "stmt" and isinstance(n_.ast, ast.Assign) and
+                            any(isinstance(t2, ast.Name) and t2.id == e.id for t2 in n_.ast.targets)]
+                    return bool(defs) and all(own(d_, depth + 1) for d_ in defs)
+                return False
+            ctx.ob(f"{arm}: `{stmt_key(c)[:50]}` completes this request's own pending result", own(c.args[0]),
                    f"completes {tgt}", om.fn.loc(c))
         # no path completes twice
         for n, c in completes:
@@ -344,11 +365,13 @@ def rule_remove_then_complete(ctx):
     # the handler is identified by its canonical definition (read through `call_request.options` or a local alias of it)
     from .common import local_canon, canon_text
     _cn = local_canon(om.fn)
-    HANDLER = canon_text(om.fn, ast.parse("call_request.options.on_progress", mode="eval").body, _cn)
-    cb = [(n, c) for n in prog for c in node_calls(n) if call_name(c) == "txaio.as_future" and c.args and canon_text(om.fn, c.args[0], _cn) == HANDLER]
-    ctx.ob("RESULT progress: delivered to the on_progress handler of the call with this request id", len(cb) == 2 and
-           any((norm.text(s.ast.value) or "").replace(" ", "") in ("self._call_reqs[msg.request]", "self._call_reqs.get(msg.request)", "self._call_reqs.get(msg.request,None)")
-               for s in nodes if s.kind == "stmt" and isinstance(s.ast, ast.Assign) and norm.text(s.ast.targets[0]) == "call_request"),
+    # ... of the record looked up under this request id (the local holding the record is identified by that lookup, not by its name)
+    LOOKUPS = ("self._call_reqs[msg.request]", "self._call_reqs.get(msg.request)", "self._call_reqs.get(msg.request,None)")
+    recs = [s.ast.targets[0].id for s in nodes if s.kind == "stmt" and isinstance(s.ast, ast.Assign) and len(s.ast.targets) == 1 and isinstance(s.ast.targets[0], ast.Name)
+            and (norm.text(s.ast.value) or "").replace(" ", "") in LOOKUPS]
+    HANDLERS = {canon_text(om.fn, ast.parse(f"{r_}.options.on_progress", mode="eval").body, _cn) for r_ in set(recs)}
+    cb = [(n, c) for n in prog for c in node_calls(n) if call_name(c) == "txaio.as_future" and c.args and canon_text(om.fn, c.args[0], _cn) in HANDLERS]
+    ctx.ob("RESULT progress: delivered to the on_progress handler of the call with this request id", len(cb) == 2 and len(set(recs)) == 1,
            "progress delivery changed", om.fn.loc())
 
 
@@ -508,11 +531,16 @@ def rule_optional_payload(ctx):
     n_opt = 0
     # the options object may be read through a local alias (`call_opts = call_request.options`): identified by canonical definition
     cn_om = local_canon(om.fn)
-    OPT = canon_text(om.fn, ast.parse("call_request.options", mode="eval").body, cn_om)
-    aliases = {"call_request.options"} | {nm for nm, d in cn_om.items() if (norm.text(d) or "") == OPT or canon_text(om.fn, d, cn_om) == OPT}
+    # the request record of the RESULT arm: the local(s) read out of self._call_reqs there (whatever they are called)
+    recs = {t_.id for n in om.arm_nodes("Result") if n.kind == "stmt" and isinstance(n.ast, ast.Assign)
+            and any(norm.text(x_) == "self._call_reqs" for x_ in ast.walk(n.ast.value))
+            for t_ in n.ast.targets if isinstance(t_, ast.Name)} or {"call_request"}
+    OPTS = {canon_text(om.fn, ast.parse(f"{r_}.options", mode="eval").body, cn_om) for r_ in recs}
+    OPT = sorted(OPTS)[0]
+    aliases = {f"{r_}.options" for r_ in recs} | {nm for nm, d in cn_om.items() if (norm.text(d) or "") in OPTS or canon_text(om.fn, d, cn_om) in OPTS}
 
     def is_opt(e):
-        return norm.text(e) in aliases or canon_text(om.fn, e, cn_om) == OPT
+        return norm.text(e) in aliases or canon_text(om.fn, e, cn_om) in OPTS
     for n in om.arm_nodes("Result"):
         facts = om.mf.at(n) or ()
         from ..core.cfg import node_exprs
@@ -530,7 +558,7 @@ def rule_optional_payload(ctx):
             for x in ast.walk(e):
                 if isinstance(x, ast.Attribute) and is_opt(x.value) and isinstance(x.ctx, ast.Load):
                     n_opt += 1
-                    ok = any(("truth", a_, None, True) in facts for a_ in aliases | {OPT}) or id(x) in guarded_here
+                    ok = any(("truth", a_, None, True) in facts for a_ in aliases | OPTS) or id(x) in guarded_here
                     ctx.ob(f"RESULT: `{norm.text(x)}` read only when the call has options [{stmt_key(n.ast)[:40]}]", ok,
                            "call() without CallOptions stores options=None: this read raises AttributeError out of onMessage (a router sending an "
                            "unrequested progressive RESULT closes the transport and fails every pending request)", om.fn.loc(x))
